@@ -225,9 +225,11 @@ CLAIMS["C10"] = dict(
          "key looked up in databases/projects/integrations/predictor_info, every value compared with a catalog name and every "
          "FetchDataframeStep(integration=) is lower-cased on every path; both resolvers (resolve_database_table, "
          "PlanJoinTablesQuery.resolve_table) obey the same decision rule (pop the first part only under len > 1 and normalised "
-         "membership, keep it lower-cased, default namespace otherwise, PlanningException when none); the qualifier is stripped "
-         "under len > 1 and a normalised comparison; table branches are control-dependent on `not a model`; the version suffix "
-         "is returned and appended; the CTE exemption of get_query_info is evaluated on probe names.",
+         "membership, keep it lower-cased, default namespace otherwise, PlanningException when none); "
+         "prepare_integration_select and get_query_info are interpreted on probe identifiers / queries (fail-closed AST "
+         "interpreter): the qualifier is stripped exactly for multi-part names whose first part is the integration in any "
+         "letter case, a CTE shadows exactly its unqualified name; table branches are control-dependent on `not a model`; "
+         "steps that name a model take the name (with version) from the reference in the query.",
     note="Table discovery completeness is C13's verdict (a position the walker skips is invisible to routing). Dead code "
          "(functions referenced nowhere in mindsdb_sql) carries no obligations and is listed in the evidence notes.",
     technique="interprocedural must-dataflow (case-normalised names) + guard extraction on the sibling resolvers + truth table of the CTE filter")
@@ -240,10 +242,10 @@ CLAIMS["C11"] = dict(
          "{api, sql, absent, not in catalog}: 80 rows each) and must accept exactly the rows the statement names; on "
          "acceptance the only effects are prepare_integration_select(<gate integration>, <analysed query>) and one "
          "add_step(FetchDataframeStep(integration=<gate integration>, query=<same object>)) followed by an immediate return "
-         "(from_query: return self.plan), on refusal no effect; the rewrite callback stores only node.parts (pop(0) under "
-         "len > 1 and the normalised comparison, guards reading nothing but the identifier and the integration name) and "
-         "node.alias (is_target, alias is None, value = own last part) and returns None; the walker it relies on is "
-         "re-analysed with C13's model (every field visited once with the right flags).",
+         "(from_query: return self.plan), on refusal no effect; prepare_integration_select interpreted on ~480 probe "
+         "identifiers removes exactly the integration qualifier and adds exactly the output-name alias, writes nothing else "
+         "and replaces no node; get_query_info interpreted on 13 probe queries classifies references as the gate expects; the "
+         "walker it relies on is re-analysed with C13's model (every field visited once with the right flags).",
     note="That removing the qualifier preserves meaning for every query (aliases shadowing the integration name) needs SQL "
          "scope resolution over all programs and is not decided; the rule only proves the rewrite touches nothing else.",
     technique="truth-table interpretation of the sibling gates + effect sequence on the accept path + write-set/guard analysis of the rewrite callback")
